@@ -123,6 +123,9 @@ package engine
 //@ ghost var txn int
 //@ ghost var walFlushes int
 //@ ghost var rowsApplied int
+// ioFailed: a storage operation behind the RelationManager interface failed for a reason other than the statement's own values
+// (page read/write, log append, a row that vanished): C14 is about errors caused by the statement, not about a failing disk.
+//@ ghost var ioFailed bool
 // Log records carry a ghost sequence number in the order the storage layer produced them.
 //@ ghost var entryCount int
 //@ ghost var seq(e *storage.WALEntry) int
@@ -147,7 +150,7 @@ package engine
 //@ iface (rm RelationManager) Fetch(tableName string) ([]*storage.Row, []*storage.Field, error)
 //@   trusted
 //@   requires txn == 1
-//@   modifies storeState
+//@   modifies storeState, ioFailed
 //@   ensures err == nil ==> storage.fieldsOK(result1) && rowsFit(result1, result0) && ascRows(result0)
 //@   ensures err == nil ==> (result0 == nil || fresh(result0)) && (result1 == nil || fresh(result1))
 //@   ensures err == nil ==> (forall i int :: 0 <= i && i < len(result0) ==> fresh(result0[i]) && (result0[i].Vals == nil || fresh(result0[i].Vals)))
@@ -156,7 +159,7 @@ package engine
 //@ iface (rm RelationManager) Insert(tableName string, cols []string, vals []interface{}) (storage.WALBatch, error)
 //@   trusted
 //@   requires txn == 1
-//@   modifies storeState, entryCount, seq, rowsApplied
+//@   modifies storeState, ioFailed, entryCount, seq, rowsApplied
 //@   ensures result0 == nil || fresh(result0)
 //@   ensures err == nil ==> rowsApplied == old(rowsApplied) + 1
 //@   ensures err != nil ==> rowsApplied == old(rowsApplied)
@@ -166,16 +169,22 @@ package engine
 //@ iface (rm RelationManager) Update(tableName string, rowID uint32, cols []string, updateSrc []interface{}) (storage.WALBatch, error)
 //@   trusted
 //@   requires txn == 1
-//@   modifies storeState, entryCount, seq
+//@   modifies storeState, ioFailed, entryCount, seq, rowsApplied
 //@   ensures result0 == nil || fresh(result0)
+//@   ensures err == nil ==> rowsApplied == old(rowsApplied) + 1
+//@   ensures err != nil ==> rowsApplied == old(rowsApplied)
+//@   ensures old(ioFailed) ==> ioFailed
 //@   ensures[seq] entryCount == old(entryCount) + len(result0) && produced(result0, old(entryCount))
 //@   ensures[seq.frame] forall e *storage.WALEntry :: !fresh(e) ==> seq(e) == old(seq(e))
 
 //@ iface (rm RelationManager) MarkDeleted(tableName string, rowID uint32) (storage.WALBatch, error)
 //@   trusted
 //@   requires txn == 1
-//@   modifies storeState, entryCount, seq
+//@   modifies storeState, ioFailed, entryCount, seq, rowsApplied
 //@   ensures result0 == nil || fresh(result0)
+//@   ensures err == nil ==> rowsApplied == old(rowsApplied) + 1
+//@   ensures err != nil ==> rowsApplied == old(rowsApplied) && ioFailed
+//@   ensures old(ioFailed) ==> ioFailed
 //@   ensures[seq] entryCount == old(entryCount) + len(result0) && produced(result0, old(entryCount))
 //@   ensures[seq.frame] forall e *storage.WALEntry :: !fresh(e) ==> seq(e) == old(seq(e))
 
@@ -183,19 +192,20 @@ package engine
 //@   trusted
 //@   requires txn == 1
 //@   requires[order; C03] batchOrdered(batch)
-//@   modifies storeState, walFlushes
+//@   modifies storeState, ioFailed, walFlushes
 //@   ensures result == nil ==> walFlushes == old(walFlushes) + 1
-//@   ensures result != nil ==> walFlushes == old(walFlushes)
+//@   ensures result != nil ==> walFlushes == old(walFlushes) && ioFailed
+//@   ensures old(ioFailed) ==> ioFailed
 
 //@ iface (rm RelationManager) CreateTable(r *storage.Relation, tableName string) error
 //@   trusted
 //@   requires txn == 0
-//@   modifies storeState
+//@   modifies storeState, ioFailed
 
 //@ func nestedLoopJoin(rm RelationManager, tf sql.TableReference) ([]*storage.Row, storage.Fields, error)
 //@   props C06 C18
 //@   requires txn == 1 && rm != nil && sql.tfWF(tf)
-//@   modifies storeState
+//@   modifies storeState, ioFailed
 //@   ensures[txn; C13] txn == 1
 //@   ensures[shape; C06 C18] err == nil ==> storage.fieldsOK(result1) && rowsFit(result1, result0)
 //@   ensures[fresh] err == nil ==> (result0 == nil || fresh(result0)) && (result1 == nil || fresh(result1))
@@ -376,13 +386,13 @@ package engine
 //@ func EvaluateSelect(q sql.Select, rm RelationManager) ([]*storage.Row, []*storage.Field, error)
 //@   props C05 C13 C18
 //@   requires txn == 0 && nonNilPtr(rm) && sql.selWF(q)
-//@   modifies txn, storeState, all(storage.Row.Vals), all(storage.Field.Column), allelems(any), allelems(*storage.Row)
+//@   modifies txn, storeState, ioFailed, all(storage.Row.Vals), all(storage.Field.Column), allelems(any), allelems(*storage.Row)
 //@   ensures[unlock; C13 C18] txn == 0
 
 //@ func EvaluateInsert(q sql.InsertStatement, rm RelationManager) (int, error)
 //@   props C01 C02 C03 C13 C14 C18
 //@   requires txn == 0 && nonNilPtr(rm) && typeof(q.InsertColumnsAndSource.QueryExpression) == typ(sql.TableValueConstructor)
-//@   modifies txn, storeState, walFlushes, entryCount, seq, rowsApplied
+//@   modifies txn, storeState, ioFailed, walFlushes, entryCount, seq, rowsApplied
 //@   ensures[unlock; C13 C18] txn == 0
 //@   ensures[L4; C02] err == nil ==> walFlushes == old(walFlushes) + 1
 //@   ensures[err.nolog; C14] err != nil ==> walFlushes == old(walFlushes)
@@ -394,21 +404,24 @@ package engine
 //@ func EvaluateDelete(q sql.DeleteStatementSearched, rm RelationManager) (int, error)
 //@   props C01 C02 C03 C13 C14 C18
 //@   requires txn == 0 && nonNilPtr(rm) && (q.WhereClause == nil || typeof(q.WhereClause) == typ(sql.WhereClause))
-//@   modifies txn, storeState, walFlushes, entryCount, seq
+//@   modifies txn, storeState, ioFailed, walFlushes, entryCount, seq, rowsApplied
 //@   ensures[unlock; C13 C18] txn == 0
 //@   ensures[L4; C02] err == nil ==> walFlushes == old(walFlushes) + 1
 //@   ensures[err.nolog; C14] err != nil ==> walFlushes == old(walFlushes)
+//@   ensures[err.atomic; C14] err != nil && !ioFailed ==> rowsApplied == old(rowsApplied)
 //@   loop 1 invariant txn == 1 && (batch == nil || fresh(batch))
+//@   loop 1 invariant [err.atomic; C14] ioFailed || rowsApplied == old(rowsApplied) + rangeindex + 1
 //@   loop 1 invariant [order; C03] batchOrdered(batch) && batchBelow(batch, entryCount)
 //@   loop 1 decreases len(rows) - rangeindex
 
 //@ func EvaluateUpdate(q sql.UpdateStatementSearched, rm RelationManager) error
 //@   props C01 C02 C03 C13 C14 C18
 //@   requires txn == 0 && nonNilPtr(rm) && (q.Where == nil || typeof(q.Where) == typ(sql.WhereClause))
-//@   modifies txn, storeState, walFlushes, entryCount, seq
+//@   modifies txn, storeState, ioFailed, walFlushes, entryCount, seq, rowsApplied
 //@   ensures[unlock; C13 C18] txn == 0
 //@   ensures[L4; C02] err == nil ==> walFlushes == old(walFlushes) + 1
 //@   ensures[err.nolog; C14] err != nil ==> walFlushes == old(walFlushes)
+//@   ensures[err.atomic; C14] err != nil && !ioFailed ==> rowsApplied == old(rowsApplied)
 //@   loop 1 invariant txn == 1
 //@   loop 2 invariant txn == 1 && (cols == nil || fresh(cols)) && (updateSrc == nil || fresh(updateSrc))
 //@   loop 3 invariant txn == 1 && (batch == nil || fresh(batch))
@@ -418,19 +431,19 @@ package engine
 //@   props C13 C14 C18
 //@   requires txn == 0 && nonNilPtr(rm)
 //@   requires sql.colTypesOK(q.Elements)
-//@   modifies storeState
+//@   modifies storeState, ioFailed
 //@   ensures[unlock; C13] txn == 0
 //@   loop 1 invariant r != nil && (r.Fields == nil || fresh(r.Fields))
 
 //@ func EvaluateCreateDatabase(q sql.CreateDatabase) error
 //@   props C17 C18
 //@   requires txn == 0
-//@   modifies storeState, openStores, txn, @storeHeap
+//@   modifies storeState, ioFailed, openStores, txn, @storeHeap
 //@   ensures openStores == old(openStores) && txn == 0
 
 //@ func EvaluateShowDatabase(q sql.ShowDatabase) ([]*storage.Row, []*storage.Field, error)
 //@   props C17 C18
-//@   modifies storeState
+//@   modifies storeState, ioFailed
 
 //@ func printTable(rows []*storage.Row, fields []*storage.Field)
 //@   trusted
@@ -445,7 +458,7 @@ package engine
 //@ func (s *Session) ExecQuery(q string) error
 //@   props C17 C18 C13 C14
 //@   requires txn == 0 && sessInv(s)
-//@   modifies s.CurDB, s.RelationService, txn, storeState, walFlushes, rowsApplied, entryCount, seq, openStores, openDB, @storeHeap, all(storage.Row.Vals), all(storage.Field.Column), allelems(any), allelems(*storage.Row)
+//@   modifies s.CurDB, s.RelationService, txn, storeState, ioFailed, walFlushes, rowsApplied, entryCount, seq, openStores, openDB, @storeHeap, all(storage.Row.Vals), all(storage.Field.Column), allelems(any), allelems(*storage.Row)
 //@   ensures[unlock; C13] txn == 0
 //@   ensures[inv; C17 C18] sessInv(s)
 //@   ensures[errorframe; C17] result != nil && openStores == old(openStores) ==> s.CurDB == old(s.CurDB) && s.RelationService == old(s.RelationService)
